@@ -211,7 +211,7 @@ MANIFEST_TEXT = {
     "C17": {"level_text": "Exploration: per send the per-partition message counts are read before and after: exactly one partition grows by the batch size; named partition / key memo / rotation successor are checked against small models.",
             "design_ref": "DESIGN.md §4 C17", "level_note": _DATA_NOTE,
             "technique": "runtime monitoring: before/after counter vectors + key memo + rotation model"},
-    "C18": {"level_text": "Exploration with deduplication on (and off): batches with seeded id repetition patterns (within batch, across batches, across save points, roll-overs and restarts); growth per send and full scans must equal the first-occurrence model.",
+    "C18": {"level_text": "Exploration with deduplication on (and off): batches with seeded id repetition patterns (within batch, across batches, across save points, roll-overs and restarts) and near-miss ids (distinct 128-bit ids that equal an earlier id in one half, with the halves swapped, or under an xor fold of the halves: they must be stored); growth per send and full scans must equal the first-occurrence model.",
             "design_ref": "DESIGN.md §4 C18", "level_note": _DATA_NOTE,
             "technique": "runtime monitoring: first-occurrence reference model"},
     "C19": {"level_text": "Exploration with encryption on: lossless reads (model), byte search of every file under the data directory for message markers and journalled names, restart with another key / with encryption off, flipped ciphertext byte must surface as an error.",
